@@ -167,6 +167,46 @@ def main():
         if np.abs(Rsum + total).max() > 1e-8 * (1 + np.abs(total).max()):
             res.fail("reactions balance", f"{et}: reactions on the clamped boundary sum to {Rsum.tolist()}, applied load {total.tolist()}", dict(elemType=et))
 
+    # ---------------- reactions under every time scheme: K u + C v + M a on the constrained rows, arbitrary (u, v, a) ----------------
+    from EasyFEA import AlgoType as _Algo
+    for et in (["QUAD4"] if args.tier == "quick" else ["TRI3", "QUAD4", "HEXA8"]):
+        dim = M.dim_of(et)
+        mesh = M.mesh_of(et)
+        mat = Models.Elastic.Isotropic(dim, E=8.0, v=0.25, planeStress=True, thickness=1.0) if dim == 2 else Models.Elastic.Isotropic(3, E=8.0, v=0.25)
+        n = mesh.Nn * dim
+        left = mesh.Nodes_Conditions(lambda x, y, z: x == 0)
+        for algo in list(_Algo.Get_Hyperbolic_Types()):
+            simu = Simulations.Elastic(mesh, mat)
+            simu.rho = 1.5
+            simu.Set_Rayleigh_Damping_Coefs(0.25, 0.125)
+            simu.Solver_Set_Hyperbolic_Algorithm(0.1, algo=algo, alpha=0.25 if algo != _Algo.midpoint else 0.5)
+            u, v, a = (np.array([dy(rng) for _ in range(n)]) for _ in range(3))
+            simu._Set_solutions(simu.problemType, u.copy(), v.copy(), a.copy())
+            dofs = simu.Bc_dofs_nodes(left, simu.Get_unknowns())
+            K_, C_, M_, _ = simu.Get_K_C_M_F()
+            want = (K_ @ u + C_ @ v + M_ @ a)[dofs]
+            res.case((et, "dynamic reactions", str(algo)))
+            try:
+                R = np.asarray(simu.Calc_Reaction(dofs))
+            except Exception as ex:  # noqa: BLE001
+                res.fail(f"Calc_Reaction raises algo={algo}", f"{type(ex).__name__}: {str(ex)[:150]}", dict(elemType=et, algo=str(algo)))
+                continue
+            if R.shape != want.shape or np.abs(R - want).max() > 1e-9 * (1 + np.abs(want).max()):
+                res.fail(f"dynamic reactions algo={algo}", f"Calc_Reaction differs from (K u + C v + M a) on the constrained rows by {np.abs(R - want).max() if R.shape == want.shape else 'shape'}: inertia and damping forces are part of the balance",
+                         dict(elemType=et, algo=str(algo)))
+    th_ = Simulations.Thermal(M.mesh_of("QUAD4"), Models.Thermal(2.0, 1.0))
+    th_.rho = 1.5
+    th_.Solver_Set_Parabolic_Algorithm(0.1)
+    nt_ = th_.mesh.Nn
+    tu, tv = (np.array([dy(rng) for _ in range(nt_)]) for _ in range(2))
+    th_._Set_solutions(th_.problemType, tu.copy(), tv.copy())
+    dofs_t = th_.Bc_dofs_nodes(th_.mesh.Nodes_Conditions(lambda x, y, z: x == 0), ["t"])
+    Kt, Ct, _, _ = th_.Get_K_C_M_F()
+    res.case(("thermal", "parabolic reactions"))
+    Rt = np.asarray(th_.Calc_Reaction(dofs_t))
+    if np.abs(Rt - (Kt @ tu + Ct @ tv)[dofs_t]).max() > 1e-9 * (1 + np.abs(Kt @ tu).max()):
+        res.fail("parabolic reactions", "Calc_Reaction differs from (K u + C v) on the constrained rows", dict(sim="Thermal"))
+
     # ---------------- other simulation types: advertised names and kinematic components ----------------
     def check_names(simu, tag, ident):
         for name in simu.Results_Available():
@@ -305,6 +345,33 @@ def main():
         except Exception as ex:  # noqa: BLE001
             res.fail(f"sim=InElastic raises dim={dim}", f"{type(ex).__name__}: {str(ex)[:150]}", dict(sim="InElastic", elemType=et))
 
+    # ---------------- PhaseField: energies queried per stored iteration are those of that iteration's state ----------------
+    try:
+        meshh = M.mesh_2d("TRI3", a=2.0, b=1.0, h=0.5)
+        lefth = meshh.Nodes_Conditions(lambda x, y, z: x == 0)
+        righth = meshh.Nodes_Conditions(lambda x, y, z: x == 2.0)
+        ph = Simulations.PhaseField(meshh, Models.PhaseField(Models.Elastic.Isotropic(2, E=210.0, v=0.3, planeStress=True, thickness=1.0), "Amor", "AT2", 0.5, 0.2))
+        recorded = []
+        for ud in (0.01, 0.03, 0.05, 0.07):
+            ph.Bc_Init()
+            ph.add_dirichlet(lefth, [0, 0], ["x", "y"])
+            ph.add_dirichlet(righth, [ud], ["x"])
+            ph.Solve()
+            ph.Save_Iter()
+            Sg = np.asarray(ph.Result("Stress", nodeValues=False))
+            Eg = np.asarray(ph.Result("Strain", nodeValues=False))
+            recorded.append((float(ph.Result("Wdef")), float(ph.Result("Psi_Crack")), Sg.copy(), Eg.copy()))
+        for i in (0, 2, 1, 3, 0):
+            res.case(("PhaseField", "Wdef per iteration", i))
+            Wi = float(ph.Result("Wdef", iter=i))
+            Pi = float(ph.Result("Psi_Crack", iter=i))
+            if abs(Wi - recorded[i][0]) > 1e-8 * (1e-300 + abs(recorded[i][0])) or abs(Pi - recorded[i][1]) > 1e-8 * (1e-300 + abs(recorded[i][1])):
+                res.fail("sim=PhaseField energies of a stored iteration", f"Result('Wdef', iter={i}) = {Wi!r} / Result('Psi_Crack', iter={i}) = {Pi!r} but they were {recorded[i][0]!r} / {recorded[i][1]!r} when that iteration was the current state "
+                         "(1/2 u'K(d)u must use the stiffness of the activated state)", dict(sim="PhaseField", iteration=i))
+                break
+    except Exception as ex:  # noqa: BLE001
+        res.fail("sim=PhaseField per-iteration energies raise", f"{type(ex).__name__}: {str(ex)[:150]}", dict(sim="PhaseField"))
+
     # ---------------- Beam (1D / 2D / 3D, Euler-Bernoulli and Timoshenko): every advertised name ----------------
     from EasyFEA import Mesher as _Mesher, ElemType as _ET
     from EasyFEA.Geoms import Line as _Line, Point as _Pt, Domain as _Dom
@@ -397,4 +464,6 @@ def main():
 
 
 if __name__ == "__main__":
-    main()
+    from tools.harness._common import run
+
+    run(main)
